@@ -173,6 +173,7 @@ class Evaluator(object):
     # ------------------------------------------------------------------------------------------
     def summarize(self, fn, host=None, bindings=None):
         host = host or fn.cls
+        _GROUPS.clear()  # alias groups are relative to this function's anchor object
         self.summary = Summary(fn, host)
         self.seq = itertools.count(1)
         st = State()
